@@ -1,14 +1,26 @@
 import PysnarkModel.Model.Hash
 import PysnarkModel.Spec.Poseidon
+import PysnarkModel.Gen.Constants
 /-!
-# Line protocol for the Poseidon gadget
-fields `[id, paramsKey, p, mode, inputs]`:
+# Line protocol for the hash gadgets (C20)
+
+## `PH` — Poseidon.  fields `[id, paramsKey, p, mode, inputs]`:
 * `paramsKey`: a key of `Gen.poseidonTable` (`zkinterface`, `zkifbellman`, `zkifbulletproofs`, `nobackend`)
 * `p`: the backend modulus
 * `mode`: `permute` | `hash`
 * `inputs`: comma-separated integers (possibly empty), each turned into a `PrivVal`
-output `id|<comma-separated output values mod p>|ncons=<n>|spec=<comma-separated Spec outputs>`,
+output `id|<output values, as reported (not reduced by the driver)>|ncons=<n>|npriv=<n>|sdig=<d>|odig=<d>|wdig=<d>|spec=<Spec outputs>`,
 or `id|err:<PythonExceptionName>|spec=<…>` when the model raises, or `id|bad` on a parse failure.
+The digests are Horner sums modulo `p` (base `digestBase`): `sdig` over `A(ρ),B(ρ),C(ρ)` of every
+constraint in emission order on the fixed probe assignment `ρ` (`probe`), `odig` over the wire
+expressions of the outputs on `ρ`, `wdig` over the recorded private values.
+
+## `PS` — parameter set in use.  fields `[id, env, pre, unloadable, ipython]` as for `S` (C19)
+output `id|params|<name>|<fingerprint, comma-separated>` | `id|notimplemented|<name>` | `id|runtimefails`
+
+## `PG` — subset-sum hash.  fields `[id, p, coefs, bits]`: `coefs` comma-separated integers, `bits`
+comma-separated tokens `s<int>` (a `PrivVal`) or `i<int>` (a python int)
+output `id|<int or lc>|<value as reported>|ncons=<n>|npriv=<n>|odig=<d>` or `id|err:<…>`
 -/
 namespace Pysnark.ProtoHash
 open Pysnark Pysnark.Gen
@@ -25,6 +37,20 @@ def parseInts (s : String) : Option (List Int) :=
 
 def joinNats (l : List Nat) : String := ",".intercalate (l.map toString)
 def joinInts (l : List Int) : String := ",".intercalate (l.map toString)
+
+def digestBase : Int := 1000003
+
+/-- the probe assignment: distinct, value-independent, non-trivial on every wire -/
+def probe : Wire → Int
+  | .one => 1
+  | .pub i => ((i : Int) + 5) * 7919
+  | .priv i => ((i : Int) + 3) * ((i : Int) + 3) * 1000033 + 17
+
+def digest (p : Int) (vs : List Int) : Int :=
+  vs.foldl (fun d v => (d * digestBase + v % p) % p) 0
+
+def shapeDigest (p : Int) (cons : List Constraint) : Int :=
+  digest p (cons.flatMap fun c => [LC.eval probe c.1, LC.eval probe c.2.1, LC.eval probe c.2.2])
 
 def handlePoseidon (fields : List String) : String :=
   match fields with
@@ -47,8 +73,60 @@ def handlePoseidon (fields : List String) : String :=
             if isHash then Spec.Poseidon.hash P p.toNat red else Spec.Poseidon.permute P p.toNat red
           match prog s0 with
           | .ok (out, s) =>
-            s!"{id}|{joinInts (out.map fun x => x.value % p)}|ncons={s.cons.length}|spec={joinNats spec}"
+            s!"{id}|{joinInts (out.map fun x => x.value)}|ncons={s.cons.length}|npriv={s.priv.length}|sdig={shapeDigest p s.cons}|odig={digest p (out.map fun x => LC.eval probe x.lc)}|wdig={digest p s.priv}|spec={joinNats spec}"
           | .error e => s!"{id}|err:{e.name}|spec={joinNats spec}"
+    | _, _, _ => s!"{id}|bad"
+  | _ => "bad-line"
+
+def names (t : String) : List String := (t.splitOn ",").filter (· ≠ "")
+
+/-- same fingerprint as `Props/C20.lean`: `[t, R_F, R_P, a]`, first round-constant row, first matrix row -/
+def fingerprint (P : PoseidonParams) : List Nat :=
+  [P.t, P.rF, P.rP, P.a] ++ P.roundConstants.headD [] ++ P.matrix.headD []
+
+def handleParams (fields : List String) : String :=
+  match fields with
+  | [id, env, pre, unl, ipy] =>
+    if ipy ≠ "0" && ipy ≠ "1" then s!"{id}|bad-config" else
+    let unl := names unl
+    let c : Select.Config :=
+      { registry := Gen.backends
+        preimported := names pre
+        env := if env == "-" then none else some env
+        loadable := fun m => !unl.contains m
+        ipython := ipy == "1" }
+    let name := match Select.select c with
+      | .ok n _ _ _ => n
+      | _ => "-"
+    match Hash.paramsInUse c with
+    | .params P => s!"{id}|params|{name}|{joinNats (fingerprint P)}"
+    | .notImplemented => s!"{id}|notimplemented|{name}"
+    | .runtimeFails => s!"{id}|runtimefails"
+  | _ => "bad-line"
+
+def parseBit (t : String) : Option (Bool × Int) :=
+  if t.startsWith "s" then (t.drop 1).toInt?.map fun v => (true, v)
+  else if t.startsWith "i" then (t.drop 1).toInt?.map fun v => (false, v)
+  else none
+
+def handleGgh (fields : List String) : String :=
+  match fields with
+  | [id, p, coefs, bits] =>
+    match p.toInt?, parseInts coefs, mapOpt parseBit (names bits) with
+    | some p, some coefs, some bits =>
+      if p ≤ 0 then s!"{id}|bad"
+      else
+        let prog : M Hash.Total := do
+          let bs ← mapM' (fun (b : Bool × Int) =>
+            if b.1 then (do let x ← privVal b.2; pure (Hash.Bit.lc x)) else pure (Hash.Bit.int b.2)) bits
+          Hash.gghHash coefs bs
+        match prog { p := p, bitlength := 16 } with
+        | .ok (t, s) =>
+          let (kind, od) := match t with
+            | .int _ => ("int", (0 : Int))
+            | .lc x => ("lc", digest p [LC.eval probe x.lc])
+          s!"{id}|{kind}|{t.value}|ncons={s.cons.length}|npriv={s.priv.length}|odig={od}"
+        | .error e => s!"{id}|err:{e.name}"
     | _, _, _ => s!"{id}|bad"
   | _ => "bad-line"
 
